@@ -11,7 +11,7 @@ identity map: simulate(cgmap=identity) versus the plain simulation on the real e
 import itertools, math
 from fractions import Fraction
 import numpy as np
-from common import frac, rstr, rparse, close
+from common import frac, rstr, rparse, close, fstr
 import common
 from props.c06 import SPACE, TIME, QTY, si_space, si_qty, si_factor
 
@@ -320,13 +320,13 @@ def oracle_cg(ctx, c, got, case):
         ctx.violation(key0 + ":ngroups", "coarse graph has %d nodes for %d groups" % (got["n"], ng), case, impl=got["n"], expected=ng)
         return
     vs = [si_of(v) for v in got["vols"]]
-    if not close(float(sum(vs)), bf["total_vol"], rel=REL):
-        ctx.violation(key0 + ":total-volume", "total volume %.6g m3, the retained cells have %.6g m3" % (float(sum(vs)), float(bf["total_vol"])), case,
-                      impl=float(sum(vs)), expected=float(bf["total_vol"]))
+    if not close(sum(vs), bf["total_vol"], rel=REL):
+        ctx.violation(key0 + ":total-volume", "total volume %s m3, the retained cells have %s m3" % (fstr(sum(vs)), fstr(bf["total_vol"])), case,
+                      impl=fstr(sum(vs)), expected=fstr(bf["total_vol"]))
     for g in range(ng):
-        if not close(float(vs[g]), bf["vols"][g], rel=REL):
-            ctx.violation(key0 + ":group-volume", "group %d has volume %.6g m3, its %d cells have %.6g m3" % (g, float(vs[g]), len(bf["members"][g]), float(bf["vols"][g])),
-                          case, impl=float(vs[g]), expected=float(bf["vols"][g]))
+        if not close(vs[g], bf["vols"][g], rel=REL):
+            ctx.violation(key0 + ":group-volume", "group %d has volume %s m3, its %d cells have %s m3" % (g, fstr(vs[g]), len(bf["members"][g]), fstr(bf["vols"][g])),
+                          case, impl=fstr(vs[g]), expected=fstr(bf["vols"][g]))
             break
     if got["envs"] != bf["envs"]:
         ctx.violation(key0 + ":environment", "group environments %s, members have %s" % (got["envs"], bf["envs"]), case, impl=got["envs"], expected=bf["envs"])
@@ -343,13 +343,13 @@ def oracle_cg(ctx, c, got, case):
         tot_fine = sum(frac(c["state"][s * n + i]) for i in range(n) if c["im"][i] != -1) * si_qty(c["ssys"][2])
         tot_cg = sum(sv[s * ng + g] for g in range(ng))
         mag = sum(abs(frac(c["state"][s * n + i])) for i in range(n)) * si_qty(c["ssys"][2])
-        if not close(float(tot_cg), tot_fine, mag=mag, rel=1e-12):
-            ctx.violation(key0 + ":species-total", "species %d: coarse total %r, fine total over retained cells %r (SI)" % (s, float(tot_cg), float(tot_fine)),
-                          case, impl=float(tot_cg), expected=float(tot_fine))
+        if not close(tot_cg, tot_fine, mag=mag, rel=1e-12):
+            ctx.violation(key0 + ":species-total", "species %d: coarse total %s, fine total over retained cells %s (SI)" % (s, fstr(tot_cg), fstr(tot_fine)),
+                          case, impl=fstr(tot_cg), expected=fstr(tot_fine))
         for g in range(ng):
-            if not close(float(sv[s * ng + g]), bf["state"][s][g], mag=mag, rel=1e-12):
-                ctx.violation(key0 + ":group-amount", "species %d group %d holds %r, its members hold %r (SI)" % (s, g, float(sv[s * ng + g]), float(bf["state"][s][g])),
-                              case, impl=float(sv[s * ng + g]), expected=float(bf["state"][s][g]))
+            if not close(sv[s * ng + g], bf["state"][s][g], mag=mag, rel=1e-12):
+                ctx.violation(key0 + ":group-amount", "species %d group %d holds %s, its members hold %s (SI)" % (s, g, fstr(sv[s * ng + g]), fstr(bf["state"][s][g])),
+                              case, impl=fstr(sv[s * ng + g]), expected=fstr(bf["state"][s][g]))
                 break
         flags = [got["chem"][s * ng + g] for g in range(ng)]
         if flags != bf["chem"][s]:
@@ -366,15 +366,15 @@ def oracle_cg(ctx, c, got, case):
         return
     for (i, j, sfc, dst), p in zip(got["edges"], pairs):
         es, ed2 = bf["edges"][p]
-        if not close(float(si_of(sfc)), es, rel=REL):
-            ctx.violation(key0 + ":surface", "edge %s has surface %.6g m2, shared faces x face area = %.6g m2" % (p, float(si_of(sfc)), float(es)), case,
-                          impl=float(si_of(sfc)), expected=float(es))
+        if not close(si_of(sfc), es, rel=REL):
+            ctx.violation(key0 + ":surface", "edge %s has surface %s m2, shared faces x face area = %s m2" % (p, fstr(si_of(sfc)), fstr(es)), case,
+                          impl=fstr(si_of(sfc)), expected=fstr(es))
             break
         d_si = si_of(dst)
         scale = (bf["hs"] * max(c["shape"])) ** 2
-        if not close(float(d_si) ** 2, ed2, mag=scale, rel=REL) or d_si < 0:
-            ctx.violation(key0 + ":distance", "edge %s has distance %.6g m, centroid distance is %.6g m" % (p, float(d_si), math.sqrt(float(ed2))), case,
-                          impl=float(d_si), expected=math.sqrt(float(ed2)))
+        if not close(d_si ** 2, ed2, mag=scale, rel=REL) or d_si < 0:
+            ctx.violation(key0 + ":distance", "edge %s has distance %s m (squared: %s), squared centroid distance is %s m2" % (p, fstr(d_si), fstr(d_si ** 2), fstr(ed2)), case,
+                          impl=fstr(d_si ** 2), expected=fstr(ed2))
             break
 
 
@@ -393,15 +393,15 @@ def compare_model(ctx, c, got, m, case):
         f = si_factor((u.sys.space, u.sys.time, u.sys.quantity), (u.dim.space, u.dim.time, u.dim.quantity)) / \
             si_factor(sysname, (u.dim.space, u.dim.time, u.dim.quantity))
         return frac(float(x.value)) * f
-    ok = len(mo["vols"]) == got["n"] and all(close(float(in_sys(v, ug)), rparse(q), rel=REL) for v, q in zip(got["vols"], mo["vols"]))
+    ok = len(mo["vols"]) == got["n"] and all(close(in_sys(v, ug), rparse(q), rel=REL) for v, q in zip(got["vols"], mo["vols"]))
     ok = ok and [v.units.sys.space for v in got["vols"]] == [ug[0]] * got["n"]      # accumulated in the grid's units
     ok = ok and mo["envs"] == got["envs"]
     ok = ok and len(mo["edges"]) == len(got["edges"])
     if ok:
         scale = (frac(c["h"]) * max(c["shape"])) ** 2
         for (i, j, sfc, dst), me in zip(got["edges"], mo["edges"]):
-            if (i, j) != (me[0], me[1]) or not close(float(in_sys(sfc, uv)), rparse(me[2]), rel=REL) \
-                    or not close(float(in_sys(dst, uv)) ** 2, rparse(me[3]), mag=scale, rel=REL) or sfc.units.sys.space != uv[0]:
+            if (i, j) != (me[0], me[1]) or not close(in_sys(sfc, uv), rparse(me[2]), rel=REL) \
+                    or not close(in_sys(dst, uv) ** 2, rparse(me[3]), mag=scale, rel=REL) or sfc.units.sys.space != uv[0]:
                 ok = False
     sv = [float(v) for v in np.asarray(got["state"].value).ravel()]
     mag = sum(abs(frac(x)) for x in c["state"]) or 1
@@ -452,13 +452,13 @@ def uncg_case(ctx, rng, c, cgsys):
                 else:
                     exp = frac(data[k * ns * ng + s * ng + im[i]]) / len(members[im[i]])
                 if not close(v, exp, mag=1, rel=1e-12) and bad is None:
-                    bad = (k, s, i, v, float(exp))
+                    bad = (k, s, i, v, fstr(exp))
             for g in range(ng):
                 tot = sum(frac(vals[k * ns * n + s * n + i]) for i in members[g])
-                if not close(float(tot), frac(data[k * ns * ng + s * ng + g]), mag=1, rel=1e-12) and bad is None:
-                    bad = (k, s, "group %d total" % g, float(tot), data[k * ns * ng + s * ng + g])
+                if not close(tot, frac(data[k * ns * ng + s * ng + g]), mag=1, rel=1e-12) and bad is None:
+                    bad = (k, s, "group %d total" % g, fstr(tot), data[k * ns * ng + s * ng + g])
     if bad:
-        ctx.violation("uncg:value", "un-coarse-graining: sample %s species %s cell %s is %r, even spreading gives %r" % bad, case, impl=bad[3], expected=bad[4])
+        ctx.violation("uncg:value", "un-coarse-graining: sample %s species %s cell %s is %s, even spreading gives %s" % bad, case, impl=bad[3], expected=bad[4])
     got_map = None if out.cgmap is None else list(out.cgmap)
     if str(out.data.units) != str(traj.data.units) or got_map != list(im) or out.system.space.size() != n \
             or [float(x) for x in out.t.value] != ts:
@@ -617,11 +617,11 @@ def simulate_cg_check(c, ts, dt):
                     if kk == 0:
                         e0 = sum(frac(c["state"][s * n + i]) for i in members[g]) / len(members[g])
                         if not close(row[members[g][0]], e0, mag=1, rel=1e-9):
-                            bad = bad or "sample 0 species %d group %d is %r, initial group total / size = %r" % (s, g, row[members[g][0]], float(e0))
+                            bad = bad or "sample 0 species %d group %d is %r, initial group total / size = %s" % (s, g, row[members[g][0]], fstr(e0))
                 if any(row[i] != 0.0 for i in range(n) if im[i] == -1):
                     bad = bad or "sample %d species %d: dropped cell non-zero" % (kk, s)
-                if free[s] and not close(float(sum(frac(v) for v in row)), tot0, mag=max(tot0, 1), rel=1e-9):
-                    bad = bad or "sample %d species %d: total %r, retained cells initially hold %r" % (kk, s, float(sum(frac(v) for v in row)), float(tot0))
+                if free[s] and not close(sum(frac(v) for v in row), tot0, mag=max(tot0, 1), rel=1e-9):
+                    bad = bad or "sample %d species %d: total %s, retained cells initially hold %s" % (kk, s, fstr(sum(frac(v) for v in row)), fstr(tot0))
     if bad:
         return "bad", {"why": bad, "data": vals[:24]}
     return "ok", None
@@ -741,8 +741,12 @@ def run(ctx):
                     ctx.disagree("coarsegrain", case, "error", m)
                 continue
             got = read_cg(cg, c["ns"])
-            oracle_cg(ctx, c, got, case)
-            compare_model(ctx, c, got, m, case)
+            try:
+                oracle_cg(ctx, c, got, case)
+                compare_model(ctx, c, got, m, case)
+            except (ValueError, OverflowError) as e:      # nan / inf in the coarse system (frac() refuses them)
+                ctx.violation("cg:non-finite", "coarse-grained system holds a non-finite number (%s)" % e, case, impl=repr(e))
+                continue
             if (b0 + k) % 3 == 0:
                 op, meta = uncg_case(ctx, rng, c, cg)
                 if op is not None:
@@ -885,5 +889,5 @@ def uncg_replay(v, c, cgsys, u):
             for i in range(n):
                 exp = Fraction(0) if im[i] == -1 else frac(data[k * ns * ng + s * ng + im[i]]) / len(members[im[i]])
                 if len(vals) != N * ns * n or not close(vals[k * ns * n + s * n + i], exp, mag=1, rel=1e-12):
-                    v.violation("uncg:value", "sample %d species %d cell %d: %r, even spreading gives %r" % (k, s, i, vals[k * ns * n + s * n + i] if len(vals) == N * ns * n else None, float(exp)), {})
+                    v.violation("uncg:value", "sample %d species %d cell %d: %r, even spreading gives %s" % (k, s, i, vals[k * ns * n + s * n + i] if len(vals) == N * ns * n else None, fstr(exp)), {})
                     return
